@@ -471,7 +471,7 @@ def generate(unit, repo, probe=False):
             it = payload
             if it[0] == 'copy':
                 sf = SrcFile.get(os.path.join(repo, 'src', it[1]))
-                copy_item(out, sf, it[2], it[3], it[4], meta)
+                copy_item(out, sf, it[2], it[3], 'noderive' if unit.noderive else it[4], meta)
             elif it[0] == 'text':
                 for l in it[1]:
                     out.add(l, {'kind': 'prelude'})
